@@ -190,19 +190,89 @@ theorem maps_consistent (pan : Nat → Bool) (ops : List Op) (i : Nat) :
   have h := winv_run pan ops i
   exact ⟨h.consistent, h.batchIff, h.nonempty, h.batchNodup, h.prodKeys, h.nameKeys, h.sets, h.idle⟩
 
-/-- clause "a panicking target is reported to the recovery handler and does not stop delivery to the rest" (model
-    level): whatever set of targets panics, every operation leaves the same world and makes the same calls in the same
-    order as when nobody panics, and the recovery handler receives exactly one report per call made to a panicking target -/
-theorem panic_does_not_stop_delivery (pan : Nat → Bool) (w : World) (op : Op) :
+/-! ### panics.  The delivery loops are executed in a semantics in which a panic PROPAGATES: `Nt.Run` = (calls made,
+    `out`) with `out = some v` when a panic is leaving the code; `Run.seq` skips the rest after a panic; `Nt.frame` is a Go
+    function with one deferred call; `Nt.recovery` is `errs.Recovery` (calls `recover()`, then the handler — which may be
+    absent or panic itself — inside a frame guarded by `defer Recovery(nil)`).  `Nt.step`, which the driver executes,
+    takes its events from `deliverX` / `batchX` = the loops of `NotifyWithData` / `StartBatch` / `EndBatch` over
+    `notifyTargetX` / `notifyBatchTargetX` = frames with the deferred recovery, as in the Go source. -/
+
+/-- the semantics can express an abort: a loop over the bare calls, with no recovering frame, stops at the first
+    panicking target (target 2 panics, target 3 is never called, the panic leaves the loop) -/
+theorem unrecovered_panic_aborts :
+    loopX (fun d : Int × Nat => callTarget (fun t => t == 2) (Event.handle 0 d.2 [] d.1) d.2) [(5, 2), (1, 3)] =
+      ⟨[Event.handle 0 2 [] 5], some 2⟩ := by
+  decide
+
+/-- a frame whose deferred call is `errs.Recovery(h)` never lets a panic out, whatever the handler is — absent, well
+    behaved, or itself panicking —, and reports to the handler exactly when there was a panic and a handler exists -/
+theorem recovery_frame_contains_panic (h : Handler) (pan : Nat → Bool) (e : Event) (n t : Nat) :
+    frame (callTarget pan e t) (recovery h n t) =
+      ⟨if (pan t && h != .absent) = true then [e, Event.recovered n t] else [e], none⟩ := by
+  unfold frame callTarget recovery
+  cases hp : pan t <;> cases h <;> simp [Run.skip, frame, callHandler, recoveryNil]
+
+/-- clause "a panicking target is reported to the recovery handler and does not stop delivery to the rest", for
+    `NotifyWithData`: in the propagating-panic semantics the loop over the delivery list runs to its end (`out = none`:
+    `Notify` returns normally), EVERY target of the list is invoked, in order, however many of the earlier ones panicked,
+    and the recovery handler — if the notifier has one — receives exactly one report per panicking target -/
+theorem panic_does_not_stop_delivery (pan : Nat → Bool) (n : Nat) (name : Name) (ds : List (Int × Nat)) :
+    (deliverX pan n name ds).out = none ∧
+    calls (deliverX pan n name ds).trace = ds.map (fun d => Event.handle n d.2 name d.1) ∧
+    reports (deliverX pan n name ds).trace = if reports? n = true then (ds.filter (fun d => pan d.2)).length else 0 := by
+  rw [deliverX_spec]
+  refine ⟨rfl, ?_, ?_⟩
+  · rw [(calls_deliverAll pan n name ds).1, deliverAll_nobody]
+  · rw [(calls_deliverAll pan n name ds).2, deliverAll_nobody]
+    split
+    · rw [List.filter_map, List.length_map]; rfl
+    · rfl
+
+/-- the same for the `BatchMode` broadcasts of `StartBatch` / `EndBatch` (regression ind2-c17-b moved the recover to the
+    loop level here) -/
+theorem panic_does_not_stop_batch (pan : Nat → Bool) (n : Nat) (start : Bool) (ts : List Nat) :
+    (batchX pan n start ts).out = none ∧
+    calls (batchX pan n start ts).trace = ts.map (fun t => Event.batchMode n t start) ∧
+    reports (batchX pan n start ts).trace = if reports? n = true then (ts.filter pan).length else 0 := by
+  rw [batchX_spec]
+  refine ⟨rfl, ?_, ?_⟩
+  · rw [(calls_batchAll pan n start ts).1, batchAll_nobody]
+  · rw [(calls_batchAll pan n start ts).2, batchAll_nobody]
+    split
+    · rw [List.filter_map, List.length_map]; rfl
+    · rfl
+
+/-- the statement depends on WHERE the recover sits: with one `defer errs.Recovery(h)` around the whole loop instead of
+    one per target (`Nt.deliverLoopLevel`), the panic of target 2 is still recovered and reported, the call still returns
+    normally — but target 3, next in the list, is never invoked -/
+theorem recover_at_loop_level_refuted :
+    deliverLoopLevel (fun t => t == 2) 0 [] [(5, 2), (1, 3)] =
+      ⟨[Event.handle 0 2 [] 5, Event.recovered 0 2], none⟩ ∧
+    deliverX (fun t => t == 2) 0 [] [(5, 2), (1, 3)] =
+      ⟨[Event.handle 0 2 [] 5, Event.recovered 0 2, Event.handle 0 3 [] 1], none⟩ := by
+  decide
+
+/-- operation level (what the driver prints): whatever set of targets panics, every operation leaves the same world
+    and makes the same calls in the same order as when nobody panics; the events of `Notify` are one `HandleNotification`
+    per element of the delivery list `Nt.notify`, in that order (so `notify_targets` / `notify_priority_order` speak about
+    the calls actually made) -/
+theorem panic_step (pan : Nat → Bool) (w : World) (op : Op) (i : Nat) (raw : List Nat) :
     (step pan w op).1 = (step nobody w op).1 ∧
     calls (step pan w op).2 = (step nobody w op).2 ∧
-    reports (step pan w op).2 = ((step nobody w op).2.filter (fun e => pan e.target)).length := by
-  cases op with
-  | notify n raw => exact ⟨rfl, (calls_deliverAll pan n _ _).1, (calls_deliverAll pan n _ _).2⟩
-  | startBatch n => exact ⟨rfl, (calls_batchAll pan n _ _).1, (calls_batchAll pan n _ _).2⟩
-  | endBatch n => exact ⟨rfl, (calls_batchAll pan n _ _).1, (calls_batchAll pan n _ _).2⟩
-  | merge n m => simp only [step]; split <;> simp [calls, reports]
-  | _ => exact ⟨rfl, rfl, rfl⟩
+    calls (step pan w (.notify i raw)).2 =
+      (notify (w i) raw).map (fun d => Event.handle i d.2 (normalize raw) d.1) := by
+  refine ⟨?_, ?_, ?_⟩
+  · cases op <;> rfl
+  · rw [step_spec, step_spec]
+    cases op with
+    | notify n raw => exact (calls_deliverAll pan n _ _).1
+    | startBatch n => exact (calls_batchAll pan n _ _).1
+    | endBatch n => exact (calls_batchAll pan n _ _).1
+    | merge n m => simp only [stepSpec]; split <;> simp [calls]
+    | _ => rfl
+  · rw [step_spec]
+    show calls (deliverAll pan i (normalize raw) (notify (w i) raw)) = _
+    rw [(calls_deliverAll pan i _ _).1, deliverAll_nobody]
 
 /-- name normalisation: the segments are non-empty and dot-free, and splitting the re-joined normalised name (what
     `NotifyWithData` does with `strings.Split(normalizeName(name), ".")`) gives the same segments back -/
